@@ -27,6 +27,8 @@ class UniformGenerator(AnalysisGenerator):
         The number of samples in the DOE.
     _seed : int or None
         Random seed.
+    _rng : module or RandomState
+        Source of the random samples: a private stream when a seed was given.
     _sizes : dict
         A dictionary mapping variable names to their sizes, determined from the 'lower' and 'upper'
         bounds in the var_dict.
@@ -38,6 +40,7 @@ class UniformGenerator(AnalysisGenerator):
         """
         self._num_samples = num_samples
         self._seed = seed
+        self._rng = np.random
         self._sizes = sizes = {}
 
         for name, meta in var_dict.items():
@@ -54,8 +57,9 @@ class UniformGenerator(AnalysisGenerator):
         ValueError
             Raised if the length of var_dict for each case are not all the same size.
         """
-        if self._seed is not None:
-            np.random.seed(self._seed)
+        # use a private, freshly seeded stream, because the samples are drawn lazily in __next__,
+        # long after construction
+        self._rng = np.random if self._seed is None else np.random.RandomState(self._seed)
 
         self._iter = iter(range(self._num_samples))
 
@@ -87,7 +91,7 @@ class UniformGenerator(AnalysisGenerator):
         d = {}
         for name, meta in self._var_dict.items():
             d[name] = {
-                'val': np.random.uniform(meta['lower'], meta['upper'], sizes[name]),
+                'val': self._rng.uniform(meta['lower'], meta['upper'], sizes[name]),
                 'units': meta.get('units', None),
                 'indices': meta.get('indices', None)
             }
